@@ -992,6 +992,114 @@ func runCacheCancel(f []string) string {
 	return "ok " + worst
 }
 
+// walias <key>: key names through the worker RPC.  Configuration (the same on both sides, as relic has it): plain and keyC
+// are ordinary keys; keyB has key material of its own AND `alias: keyC`; keyA is `alias: keyB`.  config.GetKey follows one
+// alias level, so the worker resolves whatever name it is sent once more.  The worker-side token hands out a different
+// public key per resolved key section and signs with that section's key (the signature says which).  The client fetches
+// the key (getKey RPC) and signs (sign RPC): the key that signs must be the key whose public key the handle carries.
+type aliasTok struct {
+	cfg   *config.Config
+	calls []string
+	mu    sync.Mutex
+}
+
+var aliasIDs = map[string]byte{"plain": 1, "keyA": 0xA, "keyB": 0xB, "keyC": 0xC}
+
+func aliasPub(id byte) *ecdsa.PublicKey {
+	// distinct, valid P-256 points: id * G
+	x, y := elliptic.P256().ScalarBaseMult([]byte{id})
+	return &ecdsa.PublicKey{Curve: elliptic.P256(), X: x, Y: y}
+}
+
+type aliasKey struct {
+	id byte
+	kc *config.KeyConfig
+}
+
+func (k *aliasKey) Public() crypto.PublicKey { return aliasPub(k.id) }
+func (k *aliasKey) Sign(io.Reader, []byte, crypto.SignerOpts) ([]byte, error) {
+	return []byte{0x51, k.id}, nil
+}
+func (k *aliasKey) SignContext(context.Context, []byte, crypto.SignerOpts) ([]byte, error) {
+	return []byte{0x51, k.id}, nil
+}
+func (k *aliasKey) Config() *config.KeyConfig                 { return k.kc }
+func (k *aliasKey) Certificate() []byte                       { return nil }
+func (k *aliasKey) GetID() []byte                             { return []byte{k.id} }
+func (k *aliasKey) ImportCertificate(*x509.Certificate) error { return nil }
+
+func (t *aliasTok) Close() error                     { return nil }
+func (t *aliasTok) Ping(context.Context) error       { return nil }
+func (t *aliasTok) Config() *config.TokenConfig      { c, _ := t.cfg.GetToken("vt"); return c }
+func (t *aliasTok) ListKeys(token.ListOptions) error { return nil }
+func (t *aliasTok) Import(string, crypto.PrivateKey) (token.Key, error) {
+	return nil, token.NotImplementedError{Op: "import-key", Type: "veriffake"}
+}
+func (t *aliasTok) ImportCertificate(*x509.Certificate, string) error {
+	return token.NotImplementedError{Op: "import-certificate", Type: "veriffake"}
+}
+func (t *aliasTok) Generate(string, token.KeyType, uint) (token.Key, error) {
+	return nil, token.NotImplementedError{Op: "generate-key", Type: "veriffake"}
+}
+func (t *aliasTok) GetKey(ctx context.Context, name string) (token.Key, error) {
+	kc, err := t.cfg.GetKey(name) // every real token resolves the name it is given through the configuration
+	if err != nil {
+		return nil, err
+	}
+	t.mu.Lock()
+	t.calls = append(t.calls, name+">"+kc.Name())
+	t.mu.Unlock()
+	return &aliasKey{id: aliasIDs[kc.Name()], kc: kc}, nil
+}
+
+func runWAlias(f []string) string {
+	cfg := &config.Config{}
+	tc := cfg.NewToken("vt")
+	tc.Retries, tc.Timeout = 1, 5
+	for _, n := range []string{"plain", "keyC", "keyB"} {
+		cfg.NewKey(n).Token = "vt"
+	}
+	cfg.Keys["keyB"].Alias = "keyC"
+	cfg.NewKey("keyA").Alias = "keyB"
+	tok := &aliasTok{cfg: cfg}
+	cookie := fmt.Sprintf("walias-%d", idCounter.Add(1))
+	h := workercmd.VerifHandler(tok, 0, []byte(cookie), func() {})
+	srv := httptest.NewUnstartedServer(h)
+	srv.Config.SetKeepAlivesEnabled(false)
+	srv.Start()
+	defer srv.Close()
+	wt, err := worker.VerifNewClient(cfg, "vt", srv.Listener.Addr().String(), cookie)
+	if err != nil {
+		panic(err)
+	}
+	key, err := wt.GetKey(context.Background(), f[0])
+	if err != nil {
+		return "ok refused"
+	}
+	pubName := "?"
+	if pk, ok := key.Public().(*ecdsa.PublicKey); ok {
+		for n, id := range aliasIDs {
+			if aliasPub(id).Equal(pk) {
+				pubName = n
+			}
+		}
+	}
+	sig, err := key.SignContext(context.Background(), []byte("0123456789abcdef0123456789abcdef"), crypto.SHA256)
+	if err != nil || len(sig) != 2 {
+		return fmt.Sprintf("ok pub=%s sig=!", pubName)
+	}
+	sigName := "?"
+	for n, id := range aliasIDs {
+		if id == sig[1] {
+			sigName = n
+		}
+	}
+	return fmt.Sprintf("ok pub=%s sig=%s", pubName, sigName)
+}
+
+// RunWAlias is exported for C07 (the key that signs is the key whose public key the handle carries)
+func RunWAlias(f []string) string { return runWAlias(f) }
+
 // RunCacheCancel is exported for C14 (one request's cancellation must not leak into another request)
 func RunCacheCancel(f []string) string { return runCacheCancel(f) }
 
@@ -1090,6 +1198,8 @@ func runOp(f []string) (res string) {
 		return runWPin(f[2:])
 	case "cachecancel":
 		return runCacheCancel(f[2:])
+	case "walias":
+		return runWAlias(f[2:])
 	case "delays":
 		return "ok " + fmtDurs(delaySeq(int(hx.Atoi(f[2]))))
 	case "fatal":
